@@ -322,6 +322,11 @@ pub fn run(args: Args) -> ! {
     finish_run(&mut rep, "faults", run);
     let run = run_tape("C01.mutants", &prop_mutants, 2500, args.tier.pick(1_000_000, 20_000_000), args.seed, w);
     finish_run(&mut rep, "mutants", run);
+    if args.tier == Tier::Thorough && rep.violations.is_empty() {
+        // coverage-guided campaign with the same differential inside the target
+        let seeds: Vec<Vec<u8>> = CORPUS.get().unwrap().iter().filter(|b| b.len() <= 4096).cloned().collect();
+        fuzz_campaign(&mut rep, "fuzz_c01", &seeds, 1_500_000, 4096, w);
+    }
     for c in ["valid-accepted", "invalid-rejected", "non-utf8-rejected", "fault.duplicate-key", "fault.repeated-header", "fault.control-in-comment", "fault.leading-zero", "fault.feb-30", "fault.empty-header", "mutant.corpus", "mutant.generated", "str-ml-basic", "str-ml-literal", "int-hex", "dt-offset", "aot-header"] {
         rep.require_class(c);
     }
